@@ -929,4 +929,91 @@ func checkConc(c ConcCase) (r pbt.Result) {
 
 func TestConcurrentCallers(t *testing.T) { pbt.Run(t, genConc, checkConc) }
 
+// ---------------------------------------------------------------------------
+// LoadText: a 1-D dataset of fixed-width strings (written by h5py, here placed by the stand-in) comes back as exactly
+// those strings - NUL padding dropped, a string that fills the width kept whole - and anything else is an error.
+
+type TextCase struct {
+	Strs  []string
+	Width int // 0: longest + 1; otherwise the exact width (>= longest)
+}
+
+func genText(t *rapid.T) TextCase {
+	c := TextCase{Strs: rapid.SliceOfN(rapid.StringMatching(`[A-Za-z0-9_ ]{0,12}`), 1, 8).Draw(t, "strs")}
+	longest := 0
+	for _, s := range c.Strs {
+		if len(s) > longest {
+			longest = len(s)
+		}
+	}
+	switch rapid.IntRange(0, 2).Draw(t, "widthKind") {
+	case 1:
+		c.Width = longest // the longest string has no terminator
+		if c.Width == 0 {
+			c.Width = 1
+		}
+	case 2:
+		c.Width = longest + rapid.IntRange(1, 5).Draw(t, "pad")
+	}
+	return c
+}
+
+func checkText(c TextCase) (r pbt.Result) {
+	hdf5.Reset()
+	hdf5.Hook = lockProbe
+	lockViolations = nil
+	defer func() { hdf5.Hook = nil; hdf5.Reset() }()
+	caseSeq++
+	dir := os.Getenv("VERIF_WORK")
+	if dir == "" {
+		dir = os.TempDir()
+	}
+	fn := filepath.Join(dir, fmt.Sprintf("c08_text_%d.h5", caseSeq))
+	if err := hdf5.FakeCreateFile(fn); err != nil {
+		r.Failf("INFRASTRUCTURE: %v", err)
+		return
+	}
+	if err := hdf5.FakeStringDatasetWidth(fn, "/META/names", c.Strs, c.Width); err != nil {
+		r.Failf("INFRASTRUCTURE: %v", err)
+		return
+	}
+	if err := hdf5.FakePut(fn, "/numbers", "f64", []int{3}, []float64{1, 2, 3}); err != nil {
+		r.Failf("INFRASTRUCTURE: %v", err)
+		return
+	}
+	got, err := owio.H5RefFloat64{Filename: fn, Dataset: "/META/names"}.LoadText()
+	if err != nil {
+		r.Failf("LoadText of %d strings (width %d) failed: %v", len(c.Strs), c.Width, err)
+		return
+	}
+	if fmt.Sprintf("%q", got) != fmt.Sprintf("%q", c.Strs) {
+		r.Failf("LoadText returned %q, the dataset holds %q (width %d)", got, c.Strs, c.Width)
+		return
+	}
+	if v, err := (owio.H5RefFloat64{Filename: fn, Dataset: "/numbers"}).LoadText(); err == nil {
+		r.Failf("LoadText of a numeric dataset returned %q without an error", v)
+		return
+	}
+	if v, err := (owio.H5RefFloat64{Filename: fn, Dataset: "/META/absent"}).LoadText(); err == nil {
+		r.Failf("LoadText of a missing dataset returned %q without an error", v)
+		return
+	}
+	if len(lockViolations) > 0 {
+		r.Failf("LoadText: %s", lockViolations[0])
+		return
+	}
+	r.Label("text")
+	r.NonTrivial = len(c.Strs) > 1
+	if c.Width > 0 {
+		for _, s := range c.Strs {
+			if len(s) == c.Width {
+				r.Label("text:string-fills-the-width")
+			}
+		}
+	}
+	return
+}
+
+func TestLoadText(t *testing.T) { pbt.Run(t, genText, checkText) }
+
 func FuzzRoundTripHistories(f *testing.F) { pbt.Fuzz(f, gen, check) }
